@@ -19,6 +19,9 @@ import vbuild  # noqa: E402
 
 REPO = vbuild.REPO
 MUT = json.load(open(os.path.join(HERE, "mutants.json")))
+if "--benign" in sys.argv:
+    # benign refactorings: the property still holds, so the check must stay silent (exit 0)
+    MUT = json.load(open(os.path.join(HERE, "benign.json")))
 
 
 def apply(m, workdir):
@@ -52,6 +55,7 @@ def main():
     ap.add_argument("prop")
     ap.add_argument("--only")
     ap.add_argument("--skip-suite", action="store_true")
+    ap.add_argument("--benign", action="store_true")
     a = ap.parse_args()
     results = []
     for m in MUT.get(a.prop, []):
@@ -74,6 +78,12 @@ def main():
             p = subprocess.run([os.path.join(VERIF, "bin", "vcheck"), a.prop, "--tier", "quick", "--no-evidence"],
                                env=env, capture_output=True, text=True)
             caught = p.returncode == 1 and "VIOLATION property=" + a.prop in p.stdout
+            if a.benign:
+                print(f"[{a.prop}/{m['name']}] BENIGN suite_passes={suite} check_rc={p.returncode} silent={p.returncode == 0}")
+                if p.returncode != 0:
+                    print(p.stdout[-1500:], p.stderr[-800:])
+                results.append({"benign": m["name"], "suite_passes": suite, "silent": p.returncode == 0})
+                continue
             first = next((ln for ln in p.stdout.splitlines() if ln.startswith("first counterexample")), "")
             print(f"[{a.prop}/{m['name']}] suite_passes={suite} check_rc={p.returncode} caught={caught}")
             if not caught:
@@ -82,6 +92,8 @@ def main():
                 print("   ", first[:400])
             results.append({"mutant": m["name"], "suite_passes": suite, "caught": caught, "first": first[:1000]})
     os.makedirs(os.path.join(VERIF, "evidence"), exist_ok=True)
+    if a.benign:
+        sys.exit(0 if all(r["silent"] for r in results) else 1)
     json.dump(results, open(os.path.join(VERIF, "evidence", a.prop + ".mutants.json"), "w"), indent=1)
     sys.exit(0 if results and all(r["caught"] for r in results) else 1)
 
